@@ -1401,16 +1401,24 @@ def gen_legacy(seed, n, start_id=0):
         h.emit("cfg cache=%d fast=%d thr=%d iv=-" % (r.choice([0, 2, 100]), int(fast), r.choice([0, 0, 200, 400])))
         h.cfg.update(cache=0, fast=fast, thr=0, iv=None)
         # legacy phase
-        nleg = r.randint(1, 6)
-        for _ in range(nleg):
-            if r.random() > 0.25:
-                for _ in range(r.randint(0, 5)):
+        quiet = r.random() < 0.2
+        nleg = r.randint(3, 6) if quiet else r.randint(1, 6)
+        for i in range(nleg):
+            # a quiet store: written once, then only commits without writes (the root node stays older than
+            # every version that survives legacy-side pruning)
+            if (i == 0) if quiet else (r.random() > 0.25):
+                for _ in range(r.randint(1 if quiet else 0, 5)):
                     h.one_write()
             h.save()
         legacy_latest = h.latest()
         # legacy-side deletions (so that orphan records exist / are consumed)
         x = r.random()
-        if x < 0.3 and nleg >= 2:
+        if quiet:
+            b = r.randint(1, nleg - 2)
+            h.emit("ldelrange 1 %d" % (b + 1))
+            for v in range(1, b + 1):
+                h.versions.pop(v, None)
+        elif x < 0.3 and nleg >= 2:
             v = r.randint(1, nleg - 1)
             h.emit("ldel %d" % v)
             h.versions.pop(v, None)
@@ -1428,6 +1436,28 @@ def gen_legacy(seed, n, start_id=0):
         h.sweep()
         for v in range(0, legacy_latest + 2):
             h.emit("vexists %d" % v)
+        if quiet and r.random() < 0.8:
+            # commits without writes on the (old) legacy root, a rollback into the legacy range, a restart
+            for _ in range(r.randint(1, 2)):
+                h.save()
+            v = r.choice(sorted(u for u in h.versions if u <= legacy_latest))
+            h.emit("loadow %d" % v)
+            for u in list(h.versions):
+                if u > v:
+                    del h.versions[u]
+            h.base = v
+            h.working = dict(h.versions[v])
+            h.curlog = []
+            legacy_latest = min(legacy_latest, v)
+            h.emit("avail")
+            h.emit("close")
+            h.emit("cfg cache=%d fast=%d thr=%d iv=-" % (r.choice([0, 3, 100]), r.randint(0, 1), r.choice([0, 300])))
+            h.emit("open")
+            h.base = h.latest()
+            h.working = dict(h.versions.get(h.base, {}))
+            h.emit("avail")
+            h.emit("latest")
+            h.sweep()
         # directed: roll back into the legacy range, commit on top, delete across the boundary, restart.
         # The legacy orphan records whose upper version is the rollback target then name nodes that
         # the target version - and everything committed on top - still uses.
